@@ -44,6 +44,22 @@ CLAIMED = {
          "sigma on/off grid) and PRISM.cost on systems in which only some pairs have cores; c = -1-gamma bitwise, g = y/r after every cost(x), |g| <= |fun|/r on solved objects and core-follows-diameter on "
          "re-used Systems are evaluated on the implementation.",
          "4 C03", "Lean 4 proof (closure algebra + DST inverse through the cost model) + differential correspondence"),
+ 'C05': ("Lean theorems about a statement-for-statement model of the seven calculate functions (Model/Calculate.lean), for every rank, every flag value and arrays stored in either space: "
+         "pair_correlation_def (h+1), pmf_def (-kT ln g), structure_factor_def (rho_pair h + Omega, /rho_site when normalised), second_virial_def, chi_def with chi_weights (linear in C with weights "
+         "1/R : R : -2, prefactor independent of C) and chi_equal_volumes ((rho/2)(Caa+Cbb-2Cab)), spinodal_def with spinodal_is_det (the eight-term expression = det(1 - Omega C) of the pair's symmetric "
+         "2x2 block, every pair a<b of any rank; Matrix.det_fin_two), solvation_def (-kT CSC / -kT ln(1+CSC) with S as returned by structure_factor), extrapolate_is_quadratic (value at 0 of every quadratic "
+         "through the three points) and extrap0_grid (= 3y0 - 3y1 + y2 on the Domain grid), sf_of_selfconsistent (S = (1-Omega C)^-1 Omega), structure_factor_symmetric, (a,b) = (b,a) for the tables, "
+         "chi_refused_rank_one, ensureFourier/ensureReal_total (no call is refused because of the space). The model is compared call by call with the real functions on rank 1-4 objects; an independent "
+         "NumPy transcription of the definitions is evaluated on the implementation.",
+         "4 C05", "Lean 4 proof (entry-wise definitions, 2x2 determinant, Lagrange interpolation) + differential correspondence"),
+ 'C06': ("Lean theorems: the only way a calculate call or a user transform changes the object is by moving one stored array to the other space (Step; pair_correlation/pmf/second_virial/chi/spinodal/"
+         "structure_factor_steps, flip_is_step); such a move preserves the canonical (Fourier) form of every stored array (ensureFourier_canon, ensureReal_canon, roundtrip_RF/FR from the DST inverse "
+         "theorems), hence so does EVERY finite history (history_preserves_canon, calls_preserve_canon - induction over ReflTransGen Step); what the formulas read is determined by the canonical form "
+         "(ensureFourier_eq_canon, ensureReal_of_canon, reads_history_free), and the returned values are entry-wise functions of that (C05 *_def); after solve the arrays are those of the last evaluated point "
+         "(C01.solve_leaves_returned_root). PARTIAL: solvation_potential's step decomposition and re-solve from the own root (an idealisation about the external root finder) are covered by the correspondence, "
+         "not by a theorem. Random call histories (<= 12 / <= 40 calls, 2-3 components, solved and hand-populated objects, re-solves) are run on the real object and on the model, comparing every return value, "
+         "stored array and flag after every call, and every return value with the same call on a pristine copy.",
+         "4 C06", "Lean 4 proof (state-machine invariant by induction over call histories) + differential correspondence; partial for solvation/re-solve"),
  'C07': ("Lean theorems about the Domain model, for EVERY length N >= 1, every non-zero spacing, every finite dr/dk/length setter history and every array: "
          "construct_ok_iff, reachable_fresh (induction over histories: the state equals the fresh Domain(length, dr) and dk*dr*length = pi), grid_size/grid_r/grid_k, "
          "toFourier_linear, toReal_linear, toReal_toFourier and toFourier_toReal (from the kernel-checked DST orthogonality relations: dst3(dst2 x) = dst2(dst3 x) = 2N x), "
